@@ -14,13 +14,16 @@ from .. import par, tlc, zenv
 
 LEVEL = "model_checking"
 EXTS = [".zo", ".zot", ".zoq", ".zo"]
-DIRS = ["", "sub/", "deep/er/", ""]
+DIRS = ["", "sub/", "deep/er/", ".arch/"]        # (a hidden sub-directory is a sub-directory)
 
 
 def _run_dir(args):
-    a, b, cases = args
+    a, b, cases, hidden_parent = args
     zenv.set_day("2024-06-01")
     env = zenv.ZEnv()
+    if hidden_parent:           # the notes directory itself lives below a dot directory (~/.local/share/org)
+        env.zdir = env.root / ".local" / "share" / "org"
+        env.zdir.mkdir(parents=True)
     bad = []
     try:
         files = {}
@@ -68,7 +71,7 @@ def run(ctx):
     for (a, b), cs in sorted(by_pair.items()):
         rng.shuffle(cs)
         for i in range(0, len(cs), 150):
-            jobs.append((a, b, cs[i:i + 150]))
+            jobs.append((a, b, cs[i:i + 150], len(jobs) % 2 == 1))
     bad = [x for part in par.pmap(_run_dir, jobs, chunk=1) for x in part]
     groups = {}
     for b_ in bad:
